@@ -146,6 +146,15 @@ def do_op(op, reads, uses, yield_now=lambda: None):
       with gin.config_scope(key):
         obj = gin.config.singleton_value(key, _ctor if key == 'k1' else _ctor2)
     uses.append((key, obj))
+  elif kind == 'bad-single':
+    # a use of the singleton API that is rejected (no such singleton and no constructor, or a
+    # constructor that is not callable): the caller handles the error and carries on; nothing
+    # may be left behind that makes another thread's use fail or wait
+    try:
+      gin.config.singleton_value('kbad%d' % (op[1] % 2), None if op[2] % 2 == 0 else 5)
+    except ValueError:
+      return
+    raise Violation('invalid-singleton-use-accepted', str(op))
 
 
 def check_threads(case):
@@ -181,6 +190,10 @@ def check_threads(case):
       tb = ''.join(traceback.format_exception(type(e), e, e.__traceback__))[-1500:]
       raise Violation('thread-failed', f'thread {i}: {type(e).__name__}: {e}\n{tb}\n'
                       f'trace tail: {s.trace[-12:]}')
+  for name in lock_names:
+    require(not getattr(gin.config, name).locked(), 'lock-left-held',
+            lambda: f'{name} is still held after every thread finished (owner: thread '
+                    f'{getattr(gin.config, name).owner}); any later use would wait forever')
   # ---- singletons: at most one construction per key, all uses identical --------------------
   per_key = {}
   for i in range(n):
@@ -330,7 +343,8 @@ _op = st.one_of(
     st.tuples(st.just('call'), st.just(0), st.just(1), st.integers(0, 2)).map(list),
     st.just(['read']),
     st.tuples(st.just('single'), st.integers(0, 1), st.integers(0, 1)).map(list),
-    st.tuples(st.just('single'), st.just(0), st.integers(0, 1)).map(list))
+    st.tuples(st.just('single'), st.just(0), st.integers(0, 1)).map(list),
+    st.tuples(st.just('bad-single'), st.integers(0, 1), st.integers(0, 1)).map(list))
 
 
 @st.composite
